@@ -319,6 +319,74 @@ class Env:
     pass
 
 
+# ---------------------------------------------------------------- lock discipline (lockset) tracing
+# The LTS models attribute every access to the shared fields of subscription.py to one lock region
+# (Model/Item.v: item-lock region / manager-lock region).  That attribution is checked on every scheduled
+# run: an access to one of these fields by a library thread that does not hold the corresponding lock is
+# recorded.  Construction of an _ItemTaskManager (inside the manager-lock region of do_subscription) and
+# accesses from the controller thread after the run are exempt.
+ITEM_LOCK_FIELDS = ('_tasks_deq', '_isrunning', '_last_subscribe_outcome')
+MGR_LOCK_FIELDS = ('_queued', '_code')
+
+
+def make_traced(S, env, ITM, SM):
+    oga = object.__getattribute__
+
+    def held(lock, me):
+        return isinstance(lock, MLock) and lock.owner is me
+
+    def note(obj, field, mode, lock, what):
+        me = S.me()
+        if me is None or getattr(S, 'finished', False):
+            return
+        if not held(lock, me):
+            env.lock_violations.append({'field': field, 'mode': mode, 'thread': getattr(me, 'name', '?'),
+                                        'needs': what, 'step': len(S.trace)})
+
+    class TracedITM(ITM):
+        def __init__(self, *a, **k):
+            object.__setattr__(self, '_lk_init', True)
+            try:
+                ITM.__init__(self, *a, **k)
+            finally:
+                object.__setattr__(self, '_lk_init', False)
+
+        def _lk(self, name, mode):
+            try:
+                if oga(self, '_lk_init'):
+                    return
+                if name in ITEM_LOCK_FIELDS:
+                    note(self, name, mode, oga(self, '_lock'), 'item lock')
+                else:
+                    note(self, name, mode, oga(oga(self, '_subscription_mgr'), '_active_items_lock'), 'manager lock')
+            except AttributeError:
+                pass
+
+        def __getattribute__(self, name):
+            if name in ITEM_LOCK_FIELDS or name in MGR_LOCK_FIELDS:
+                oga(self, '_lk')(name, 'read')
+            return oga(self, name)
+
+        def __setattr__(self, name, value):
+            if name in ITEM_LOCK_FIELDS or name in MGR_LOCK_FIELDS:
+                oga(self, '_lk')(name, 'write')
+            object.__setattr__(self, name, value)
+    TracedITM.__name__ = ITM.__name__
+    TracedITM.__qualname__ = ITM.__qualname__
+
+    class TracedSM(SM):
+        def __getattribute__(self, name):
+            if name == '_active_items':
+                try:
+                    note(self, name, 'access', oga(self, '_active_items_lock'), 'manager lock')
+                except AttributeError:
+                    pass
+            return oga(self, name)
+    TracedSM.__name__ = SM.__name__
+    TracedSM.__qualname__ = SM.__qualname__
+    return TracedITM, TracedSM
+
+
 @contextlib.contextmanager
 def install(S, chunks=(), end='block', fail_send=None, cpu=8, cpu_raises=False):
     import lightstreamer_adapter.server as server
@@ -357,9 +425,16 @@ def install(S, chunks=(), end='block', fail_send=None, cpu=8, cpu_raises=False):
     server.os = env.os
     server.cpu_count = fake_cpu
     subscription.threading = make_threading_ns(S)
+    saved_classes = (subscription._ItemTaskManager, subscription.SubscriptionManager, server.SubscriptionManager)
+    env.lock_violations = []
+    traced_itm, traced_sm = make_traced(S, env, subscription._ItemTaskManager, subscription.SubscriptionManager)
+    subscription._ItemTaskManager = traced_itm
+    subscription.SubscriptionManager = traced_sm
+    server.SubscriptionManager = traced_sm
     try:
         yield env
     finally:
         for n, v in saved_server.items():
             setattr(server, n, v)
         subscription.threading = saved_threading
+        subscription._ItemTaskManager, subscription.SubscriptionManager, server.SubscriptionManager = saved_classes
